@@ -423,7 +423,7 @@ class Proportional(Activation):
                 self.assert_is_not_vector(activation_degree)
                 if activation_degree > 0.0:
                     activate.append(rule)
-                    sum_degrees += activation_degree
+                    sum_degrees = sum_degrees + activation_degree
 
         for rule in activate:
             rule.activation_degree /= sum_degrees
